@@ -39,6 +39,8 @@ func (u *UnitBytes) DecodeMapstructure(value interface{}) error {
 	switch v := value.(type) {
 	case int:
 		*u = UnitBytes(v)
+	case float64:
+		*u = UnitBytes(v)
 	case string:
 		b, err := units.RAMInBytes(fmt.Sprint(value))
 		*u = UnitBytes(b)
